@@ -211,14 +211,16 @@ class Sut(object):
                 self._bind_report(r, out, k)
                 self._resolves_to_potential(op["lru"], out)
             elif k == "add_pages":
-                r = t.add_pages([self.arg(l, op.get("as_str")) for l in op["lrus"]], crawled=op["crawled"])
-                n = sum(m.add_page(l, op["crawled"]) for l in op["lrus"])
+                r, order = self._observed(lambda: t.add_pages([self.arg(l, op.get("as_str")) for l in op["lrus"]], crawled=op["crawled"]))
+                n = self._model_pages([(l, op["crawled"]) for l in op["lrus"]], order, out, k)
                 self._check_new_pages(r, n, out, k)
                 self._bind_report(r, out, k)
             elif k == "add_links":
                 a = op.get("as_str")
-                r = t.add_links([(self.arg(s, a), self.arg(x, a)) for s, x in op["links"]])
-                n = m.add_links(op["links"])
+                r, order = self._observed(lambda: t.add_links([(self.arg(s, a), self.arg(x, a)) for s, x in op["links"]]))
+                n = self._model_pages([(l, False) for pair in op["links"] for l in pair], order, out, k)
+                for s_, x in op["links"]:
+                    m.links[(s_, x)] += 1
                 self._check_new_pages(r, n, out, k)
                 self._bind_report(r, out, k)
             elif k == "batch":
@@ -226,8 +228,15 @@ class Sut(object):
                 a = op.get("as_str")
                 for s_, ts in op["data"]:
                     data[self.arg(s_, a)] = [self.arg(x, a) for x in ts]
-                r = t.index_batch_crawl(data, yield_frequency=op.get("yf", 50))
-                n = m.batch(op["data"])
+                r, order = self._observed(lambda: t.index_batch_crawl(data, yield_frequency=op.get("yf", 50)))
+                named = []
+                for s_, ts in op["data"]:
+                    named.append((s_, True))
+                    named += [(x, False) for x in ts]
+                n = self._model_pages(named, order, out, k)
+                for s_, ts in op["data"]:
+                    for x in ts:
+                        m.links[(s_, x)] += 1
                 self._check_new_pages(r, n, out, k)
                 self._bind_report(r, out, k)
             elif k == "create":
@@ -375,6 +384,62 @@ class Sut(object):
                          tb=traceback.format_exc()[-600:], backend=self.cfg["backend"]))
             self.dead = True
         return out
+
+    def _observed(self, fn):
+        """Run fn() while recording the page insertions the index performs, in order:
+        [(lru, crawled)].  Returns (result, order or None when the entry point is absent)."""
+        trie = getattr(self.t, "lru_trie", None)
+        orig = getattr(trie, "add_page", None)
+        order = []
+        wrapped = False
+        if orig is not None:
+            def rec(lru, crawled=False, _o=orig, _l=order):
+                _l.append((lru, bool(crawled)))
+                return _o(lru, crawled=crawled)
+
+            try:
+                trie.add_page = rec
+                wrapped = True
+            except Exception:
+                wrapped = False
+        try:
+            r = fn()
+        finally:
+            if wrapped:
+                try:
+                    del trie.add_page
+                except Exception:
+                    pass
+        return r, (order if wrapped else None)
+
+    def _model_pages(self, named, order, out, what):
+        """Advance the model by the page insertions of one request.  `named`: [(lru, crawled)] in the
+        order the statement suggests; `order`: what the index was seen doing (or None).  The order in
+        which one request treats its pages is not specified, so the observed one is replayed; it must
+        name exactly the pages of the request."""
+        m = self.m
+        use = named
+        if order:
+            if {l for l, _ in order} != {l for l, _ in named}:
+                out.append(D(["C01"], "request-inserted-other-pages-than-named", op=what,
+                             missing=sorted({l for l, _ in named} - {l for l, _ in order})[:4],
+                             extra=sorted({l for l, _ in order} - {l for l, _ in named})[:4]))
+                raise Aborted()
+            crawled = {}
+            for l, c in named:
+                crawled[l] = crawled.get(l, False) or c
+            seen = set()
+            use = []
+            for l, c in order:
+                use.append((l, False))  # crawled marks come from the request as named, not from what was observed
+                seen.add(l)
+            # marks a request sets without re-inserting (a batch source met earlier as a target)
+            use += [(l, True) for l, c in crawled.items() if c]
+            self.stats["insertion_order_observed"] += 1
+        n = 0
+        for l, c in use:
+            n += m.add_page(l, c)
+        return n
 
     def _apply_rule(self, op, out):
         t, m = self.t, self.m
